@@ -245,6 +245,30 @@ pub fn worker(case: &Value) -> Value {
                 }
             }
         }
+        "C2" => {
+            for container in 0..vcore::gen01::DATA_CONTAINERS.len() {
+                for read_first in [false, true] {
+                    let prog = vcore::gen01::data_placement_program(container, read_first);
+                    let (class, nt, bad) = differential(&prog, b"", "C2");
+                    n += 1;
+                    *hist.entry(class).or_insert(0) += 1;
+                    if nt {
+                        nontrivial += 1;
+                    }
+                    if sample.is_null() {
+                        sample = json!({"axis": "C2", "text": print_default(&prog).text});
+                    }
+                    if let Some((sig, msg, text)) = bad {
+                        bads.push(json!({
+                            "sig": format!("C01|{}|{}|READ {}", sig, vcore::gen01::DATA_CONTAINERS[container], if read_first { "first" } else { "last" }),
+                            "summary": format!("{} — DATA inside: {} — program: {:?}", msg, vcore::gen01::DATA_CONTAINERS[container], super::truncate_text(&text, 600)),
+                            "text": text,
+                            "case": {"axis": "text", "text": text},
+                        }));
+                    }
+                }
+            }
+        }
         "text" => {
             let text = case["text"].as_str().unwrap_or("");
             let o = run_pipeline(text, &RunOpts::default());
@@ -295,6 +319,8 @@ pub fn drive(tier: &str) -> i32 {
             plan.push(json!({"axis": "A", "layout": "loops and SELECT CASE on one source line", "nodes": nodes, "children_in_last_body": last, "inside_sub": in_sub, "programs": total}));
         }
     }
+    cases.push(json!({"axis": "C2"}));
+    plan.push(json!({"axis": "C2", "programs": 2 * vcore::gen01::DATA_CONTAINERS.len()}));
     // axis B
     let b1 = vcore::gen01::axis_b_depth1().len();
     let mut lo = 0;
@@ -330,7 +356,7 @@ pub fn drive(tier: &str) -> i32 {
         run.capped = true;
     }
     let mut ev = Evidence::new("exploration");
-    ev.set("rule", "axis B: every binary operator x 5x5 operand types x a 4-value menu per type x 9 contexts (PRINT, assignment to each of the 5 types, IF condition, SELECT subject, FOR bound), operands as literals and as variables, both unary operators, depth-2 shapes in the thorough tier; ill-typed combinations must be rejected with Type mismatch; snippets that end normally are batched into one program (bisected on disagreement), snippets that end in an error run alone. Axis C: every sequence of up to n DATA items x every admissible assignment of variable types x placements of the DATA lines, plus reading past the end. axis A: every ordered forest of n construct nodes (n <= 2, thorough 3, also in the layout that writes every loop / SELECT CASE without a block IF inside on one source line, nested ones sharing their row) over 15 construct kinds (IF, IF/ELSE, IF/ELSEIF/ELSE, single-line IF, two SELECT forms, four FOR forms, WHILE, four DO forms), children placed in the first or in the last body, at module level or inside a SUB; every body carries a trace statement; the program is printed, run on the real pipeline and on the reference semantics, and stdout / end state (error code and row) are compared. Non-trivial = every statement of the program was executed at least once.");
+    ev.set("rule", "axis B: every binary operator x 5x5 operand types x a 4-value menu per type x 9 contexts (PRINT, assignment to each of the 5 types, IF condition, SELECT subject, FOR bound), operands as literals, as variables and (where the value is stored or bounds a loop) as variables with the whole expression in parentheses, both unary operators, depth-2 shapes in the thorough tier; ill-typed combinations must be rejected with Type mismatch; snippets that end normally are batched into one program (bisected on disagreement), snippets that end in an error run alone. Axis C: every sequence of up to n DATA items x every admissible assignment of variable types x placements of the DATA lines, plus reading past the end. Axis C2: three DATA statements, the middle one inside each of 22 block positions (every branch kind taken and not taken, every loop kind with two, one or no rounds, nested blocks), READ before or after them: the values come in textual order whatever was executed. axis A: every ordered forest of n construct nodes (n <= 2, thorough 3, also in the layout that writes every loop / SELECT CASE without a block IF inside on one source line, nested ones sharing their row) over 15 construct kinds (IF, IF/ELSE, IF/ELSEIF/ELSE, single-line IF, two SELECT forms, four FOR forms, WHILE, four DO forms), children placed in the first or in the last body, at module level or inside a SUB; every body carries a trace statement; the program is printed, run on the real pipeline and on the reference semantics, and stdout / end state (error code and row) are compared. Non-trivial = every statement of the program was executed at least once.");
     ev.set("exhaustive", !run.capped);
     ev.set("plan", json!(plan));
     ev.assume("reference semantics hand-written from the language definition (DESIGN.md appendix B), restricted to the exact numeric domain; cases the reference does not decide are counted as undecided and not judged");
